@@ -15,6 +15,7 @@ pub mod c13;
 pub mod c14;
 pub mod c15;
 pub mod c16;
+pub mod c17;
 pub mod c18;
 pub mod c19;
 pub mod c20;
@@ -51,6 +52,7 @@ pub fn sim_check(id: &str, tier: &str, _seed: i64) -> Option<SimCheck> {
         "C14" => Some(c14::build(tier)),
         "C15" => Some(c15::build(tier)),
         "C16" => Some(c16::build(tier)),
+        "C17" => Some(c17::build(tier)),
         "C18" => Some(c18::build(tier)),
         "C19" => Some(c19::build(tier)),
         "C20" => Some(c20::build(tier)),
